@@ -170,6 +170,156 @@ def classify_block(body, calls):
     return 'other:mixed ' + '+'.join(sorted(kinds)), conds
 
 
+# ---------------------------------------------------------------------------------------------------------------
+# Effect-based classification (second attempt when the strict shape above does not match).  A guarded block is
+# still "test" when, whatever its statement structure, it
+#   * assigns only to variables it declares itself,
+#   * calls only the audited readers, `throw`, same-file static helpers that are themselves PURE (no assignment
+#     but to their own locals/parameters, no call but readers / pure helpers / memcpy into a local) or THROWERS
+#     (pure, and every way out is `return throw(...)`),
+#   * leaves the enclosing function (`return`) only after / by throwing.
+# It is "poison" when in addition it stores the constant 0xDeadCe110 through pointers and the statement after the
+# block frees the object.  A guarded block at file scope that only defines pure / thrower helpers is "helper".
+KEYWORDS = {'if', 'for', 'while', 'switch', 'return', 'sizeof', 'case', 'else', 'do', 'default', 'break', 'continue'}
+TYPE_RE = r'(?:static\s+)?(?:const\s+)?(?:unsigned\s+)?(?:var|char|size_t|int64_t|uint64_t|intptr_t|uintptr_t|int|bool|double|struct\s+\w+)(?:\s+const)?\s*\**\s*(?:const\s+)?'
+
+
+def _strip_strings(s):
+    return re.sub(r'"(?:[^"\\\n]|\\.)*"', '""', s)
+
+
+def _strip_throw_args(s):
+    out, i = [], 0
+    for m in re.finditer(r'\bthrow\s*\(', s):
+        if m.start() < i:
+            continue
+        q = _balanced(s, m.end() - 1, '(', ')')
+        if q < 0:
+            break
+        out.append(s[i:m.start()] + 'throw()')
+        i = q
+    out.append(s[i:])
+    return ''.join(out)
+
+
+def block_effects(body, params, helpers):
+    """-> (problems, throws, poison) of a piece of C code; params = names that count as local"""
+    b = _strip_throw_args(_strip_strings(body))
+    local = set(params)
+    for m in re.finditer(TYPE_RE + r'(\w+)\s*(?=[=;\[,)])', b):
+        if m.group(1) not in KEYWORDS:
+            local.add(m.group(1))
+    problems, poison = [], False
+    throws = 'throw()' in b
+    for m in re.finditer(r'(<<|>>|[+\-*/%&|^])?=(?!=)', b):
+        if m.group(1) is None and m.start() > 0 and b[m.start() - 1] in '=!<>':
+            continue
+        st = max(b.rfind(c, 0, m.start()) for c in ';{}(,') + 1
+        lhs = b[st:m.start()].strip()
+        en = min([x for x in (b.find(';', m.end()), b.find(')', m.end()) if False else -1) if x >= 0] or [b.find(';', m.end())])
+        rhs = re.sub(r'\s+', '', b[m.end():en if en >= 0 else len(b)])
+        if m.group(1) is None and re.fullmatch(TYPE_RE + r'\w+\s*(\[[^\]]*\])?', lhs):
+            continue                                            # declaration with initialiser
+        if re.fullmatch(r'\w+', lhs) and lhs in local:
+            continue                                            # a variable of the block itself
+        if m.group(1) is None and rhs == '(var)0xDeadCe110':
+            poison = True                                       # store of the poison constant through a pointer
+            continue
+        problems.append('assignment to `%s`' % lhs[:40])
+    for m in re.finditer(r'(\w+)\s*(?:\+\+|--)|(?:\+\+|--)\s*(\w+)', b):
+        v = m.group(1) or m.group(2)
+        if v not in local:
+            problems.append('increment of `%s`' % v)
+    for m in re.finditer(r'(?<![\w$])([A-Za-z_]\w*)\s*\(', b):
+        f = m.group(1)
+        if f in KEYWORDS or f == 'throw' or f in ('or', 'and', 'not', 'is', 'isnt'):
+            continue
+        if f in PURE_CALLS:
+            continue
+        if f in helpers:
+            if helpers[f] == 'thrower':
+                throws = True
+            continue
+        if f == 'memcpy':
+            q = _balanced(b, m.end() - 1, '(', ')')
+            a0 = b[m.end():q - 1].split(',')[0].strip()
+            if re.fullmatch(r'&\s*(\w+)', a0) and a0.lstrip('& ') in local:
+                continue
+        problems.append('call of `%s`' % f)
+    return problems, throws, poison
+
+
+def returns_only_by_throwing(body, helpers):
+    b = _strip_throw_args(_strip_strings(body))
+    thr = r'(?:throw|%s)\s*\(' % '|'.join(['throw'] + [h for h, k in helpers.items() if k == 'thrower'])
+    for m in re.finditer(r'\breturn\b', b):
+        if re.match(r'return\s+' + thr, b[m.start():]):
+            continue
+        # the innermost brace block that contains this return must throw before it
+        depth, j = 0, m.start() - 1
+        while j >= 0:
+            if b[j] == '}':
+                depth += 1
+            elif b[j] == '{':
+                if depth == 0:
+                    break
+                depth -= 1
+            j -= 1
+        if not re.search(thr, b[max(j, 0):m.start()]):
+            return False
+    return True
+
+
+def file_helpers(text, funcs, blanked):
+    """same-file functions that are pure readers or always-throwing helpers"""
+    helpers = {}
+    for rnd in range(2):                 # second round: helpers that call helpers of the first round
+        for a, b_, name in funcs:
+            if name in helpers or name.startswith(('struct', 'enum')) or name == '?':
+                continue
+            head = blanked[max(0, blanked.rfind(';', 0, a), blanked.rfind('}', 0, a)) + 1:a] if a > 0 else ''
+            mh = re.search(r'\b%s\s*\(([^{}]*)\)\s*$' % re.escape(name), head, re.S)
+            params = [re.findall(r'\w+', x)[-1] for x in mh.group(1).split(',') if re.findall(r'\w+', x)] if mh else []
+            body = text[a:b_ + 1]
+            if re.search(r'^\s*#', body, re.M):
+                continue                                       # helpers with conditional code are not considered
+            problems, throws, poison = block_effects(body, params, helpers)
+            if problems or poison:
+                continue
+            if not throws:
+                helpers[name] = 'pure'
+            else:
+                bb = _strip_throw_args(_strip_strings(body))
+                rets = re.findall(r'\breturn\b[^;]*;', bb)
+                if rets and all(re.match(r'return\s+throw\s*\(\)', r) for r in rets) and re.search(r'return\s+throw\(\)\s*;\s*\}\s*$', bb):
+                    helpers[name] = 'thrower'
+    return helpers
+
+
+def classify_effects(body, helpers, after, at_file_scope, funcs_inside):
+    if at_file_scope:
+        rest = body
+        for fbody, name, _a, _b in funcs_inside:
+            if helpers.get(name) not in ('pure', 'thrower'):
+                return 'other:guarded definition of `%s` is neither a pure reader nor an always-throwing helper' % name
+        # nothing but those definitions
+        t = body
+        for a, b_, name in sorted([(x[2], x[3], x[1]) for x in funcs_inside], reverse=True):
+            t = t[:a] + t[b_:]
+        t = re.sub(r'(?:static\s+)?[\w\s\*]+?\b\w+\s*\([^{};]*\)\s*$', '', t.strip(), flags=re.S)
+        if re.sub(r'[\s;]', '', re.sub(r'(?:static\s+)?[\w\s\*]+?\b\w+\s*\([^{};]*\)\s*', '', t)) != '':
+            return 'other:file-scope block with more than helper definitions'
+        return 'helper' if funcs_inside else 'other:empty file-scope block'
+    problems, throws, poison = block_effects(body, [], helpers)
+    if problems:
+        return 'other:' + problems[0]
+    if not returns_only_by_throwing(body, helpers):
+        return 'other:return without throw inside a guarded block'
+    if poison:
+        return 'poison' if re.match(r'\s*free\s*\(', after) else 'other:poison store not followed by free'
+    return 'test'
+
+
 def enclosing_functions(text):
     """list of (start_offset, end_offset, name) of top-level brace blocks preceded by `name(...)`."""
     out = []
@@ -265,6 +415,7 @@ def generate(repo, emit, src, func_body):
 
     # ---------------------------------------------------------------- (b) guarded blocks
     rows, calls, bounds, bad_tokens = [], set(), [], []
+    used_helpers = set()
     array_defs = {}
     files = [('include/Cello.h', hdr)] + [('src/' + os.path.basename(f), _strip_cpp_comments(src('src/' + os.path.basename(f))))
                                           for f in sorted(glob.glob(os.path.join(repo, 'src', '*.c')))]
@@ -273,6 +424,8 @@ def generate(repo, emit, src, func_body):
         funcs = enclosing_functions(re.sub(r'^\s*#[^\n]*(?:\\\n[^\n]*)*', lambda mm: ' ' * len(mm.group(0)), text, flags=re.M)
                                     if fname.endswith('.c') else '')
         covered = []
+        blanked = re.sub(r'^\s*#[^\n]*(?:\\\n[^\n]*)*', lambda mm: ' ' * len(mm.group(0)), text, flags=re.M) if fname.endswith('.c') else ''
+        helpers = file_helpers(text, funcs, blanked) if fname.endswith('.c') else {}
         for mm in re.finditer(r'^[ \t]*#\s*if\s+CELLO_(\w+)_CHECK\s*==\s*1\s*$', text, re.M):
             e = re.compile(r'^[ \t]*#\s*(endif|else|elif|if|ifdef|ifndef)\b', re.M).search(text, mm.end())
             if not e or e.group(1) != 'endif':
@@ -291,7 +444,18 @@ def generate(repo, emit, src, func_body):
                 rows.append((fname, '<header>', mm.group(1), cls))
                 continue
             fn = fn_at(funcs, mm.start())
-            cls, conds = classify_block(body, calls)
+            tmp_calls = set()
+            cls, conds = classify_block(body, tmp_calls)
+            if not cls.startswith('other:'):
+                calls |= tmp_calls
+            else:
+                # second attempt: by effects (refactored shapes: helpers, other loop forms)
+                inside = [(text[a:b_ + 1], name, a - mm.end(), b_ + 1 - mm.end()) for a, b_, name in funcs if mm.end() <= a and b_ <= e.start()]
+                after = re.sub(r'^\s*', '', text[e.end():e.end() + 200])
+                cls2 = classify_effects(body, helpers, after, fn == '<file scope>', inside)
+                if not cls2.startswith('other:'):
+                    cls = cls2
+                    used_helpers.update(h for h in helpers if re.search(r'\b%s\s*\(' % re.escape(h), body))
             if mm.group(1) not in sw:
                 cls = 'other:unknown switch'
             rows.append((fname, fn, mm.group(1), cls))
@@ -326,7 +490,8 @@ def generate(repo, emit, src, func_body):
             bad_tokens.append((fname, line.strip()[:60]))
         if fname.endswith('.c'):
             for mm in re.finditer(r'^[ \t]*#\s*ifndef\s+CELLO_NGC\b', text, re.M):
-                ngc.append((fname, fn_at(funcs, mm.start())))
+                if (fname, fn_at(funcs, mm.start())) not in ngc:        # a site = (file, function), however many blocks
+                    ngc.append((fname, fn_at(funcs, mm.start())))
             for mm in re.finditer(r'\bCELLO_CACHE(_NUM)?\b', text):
                 row = (fname, fn_at(funcs, mm.start()))
                 if row not in cache:
@@ -348,6 +513,10 @@ def generate(repo, emit, src, func_body):
          % '; '.join(_coq_str(x) for x in sorted(calls)))
     emit('cfg_ngc_blocks', 'Definition cfg_ngc_blocks : list (string * string) := [%s]%%string.'
          % '; '.join('(%s, %s)' % (_coq_str(a), _coq_str(b)) for a, b in ngc) if ngc else None)
+    emit('cfg_cache_files', 'Definition cfg_cache_files : list string := [%s]%%string.   (* source files that mention CELLO_CACHE / CELLO_CACHE_NUM *)'
+         % '; '.join(_coq_str(a) for a in sorted(set(a for a, _ in cache))) if cache else None)
+    emit('cfg_guard_helpers', 'Definition cfg_guard_helpers : list string := [%s]%%string.   (* same-file helpers called from guarded blocks, verified pure / always-throwing *)'
+         % '; '.join(_coq_str(a) for a in sorted(used_helpers)))
     emit('cfg_cache_uses', 'Definition cfg_cache_uses : list (string * string) := [%s]%%string.'
          % '; '.join('(%s, %s)' % (_coq_str(a), _coq_str(b)) for a, b in cache) if cache else None)
 
@@ -406,6 +575,13 @@ def generate(repo, emit, src, func_body):
                     if bs < mc.start() < be and cond in (arg, arg + 'isntNULL', 'not(' + arg + 'isNULL)'):
                         cls = 'guarded'
                 if cls == 'unguarded':
+                    # early-return form: `if (<arg> is NULL) { return; }` before the call
+                    a_ = re.escape(arg)
+                    pre = re.sub(r'\s+', '', db[:mc.start()])
+                    if re.search(r'if\((%sisNULL|not%s|!%s|notnot%s)\)\{?return;' % (a_, a_, a_, a_), pre) and \
+                            not re.search(r'\b%s=' % a_, pre[pre.rfind('if(' + arg):] if ('if(' + arg) in pre else ''):
+                        cls = 'guarded'
+                if cls == 'unguarded':
                     mfld = re.fullmatch(r'\w+->(\w+)', arg)
                     if mfld and re.search(r'->%s\s*=\s*new(_raw|_root)?\s*\(' % mfld.group(1), cb):
                         cls = 'constructed'
@@ -420,10 +596,17 @@ def generate(repo, emit, src, func_body):
 
     # ---------------------------------------------------------------- cache wiring
     ty = src('src/Type.c')
+    body = func_body(ty, r'static\s+var\s+Type_Instance\s*\(\s*var\s+self\s*,\s*var\s+cls\s*\)\s*\{')
+    nb = re.sub(r'\s+', '', body or '')
     mac = re.search(r'#define\s+Type_Cache_Entry\(i,\s*lit\)((?:[^\n]*\\\n)*[^\n]*)', ty)
     shape = re.sub(r'[\s\\]+', '', mac.group(1)) if mac else ''
-    want_shape = 'if(clsislit){varinst=((var*)self)[i];if(instisNULL){inst=Type_Scan(self,lit);((var*)self)[i]=inst;}returninst;}'
-    body = func_body(ty, r'static\s+var\s+Type_Instance\s*\(\s*var\s+self\s*,\s*var\s+cls\s*\)\s*\{')
+    # accepted forms of "slot i serves class C: read the slot; if it is NULL scan and store; return it"
+    # (each denotes Config.lookup true; justification in design.d/C18.md, section Benign changes):
+    SHAPE_A = 'if(clsislit){varinst=((var*)self)[i];if(instisNULL){inst=Type_Scan(self,lit);((var*)self)[i]=inst;}returninst;}'
+    SHAPE_A2 = 'if(clsislit){returnType_Cache_Fetch(self,lit,i);}'
+    FETCH_A2 = '{var*slot=((var*)self)+i;if(*slotisNULL){*slot=Type_Scan(self,cls);}return*slot;}'
+    LOOP_B = ('var*slots=self;for(size_ti=0;i<TYPE_CACHE_CLASSES;i++){if(clsisnt*Type_Cache_Classes[i]){continue;}'
+              'if(slots[i]isntNULL){returnslots[i];}varinst=Type_Scan(self,cls);if(instisntNULL){slots[i]=inst;}returninst;}')
     wiring = None
     # class numbers: position in the block of `extern var <Class>;` declarations of Cello.h that starts with Doc
     mcl = re.search(r'((?:extern\s+var\s+\w+\s*;\s*)*extern\s+var\s+Doc\s*;\s*(?:extern\s+var\s+\w+\s*;\s*)+)', hdr)
@@ -434,15 +617,37 @@ def generate(repo, emit, src, func_body):
     emit('cfg_class_names', None if not classes else
          'Definition cfg_class_names : list string := [%s]%%string.   (* class number = position *)'
          % '; '.join(_coq_str(x) for x in classes))
-    if body and shape == want_shape:
-        m2 = re.fullmatch(r'\{\s*#if\s+CELLO_CACHE\s*==\s*1\s*((?:Type_Cache_Entry\(\s*\d+\s*,\s*\w+\s*\);\s*)+)#endif\s*return\s+Type_Scan\(self,\s*cls\);\s*\}', body.strip())
-        if m2:
-            wiring = [(int(a), b) for a, b in re.findall(r'Type_Cache_Entry\(\s*(\d+)\s*,\s*(\w+)\s*\)', m2.group(1))]
-            if not all(b in classes for _, b in wiring):
-                wiring = None
+    entries = r'((?:Type_Cache_Entry\(\d+,\w+\);)+)'
+    form = None
+    if body:
+        m2 = re.fullmatch(r'\{#ifCELLO_CACHE==1' + entries + r'#endifreturnType_Scan\(self,cls\);\}', nb)
+        if m2 and shape == SHAPE_A:
+            form = 'entry macro (read slot; if NULL scan and store; return) under #if CELLO_CACHE == 1'
+        if not m2:
+            m2 = re.fullmatch(r'\{' + entries + r'returnType_Scan\(self,cls\);\}', nb)
+            fetch = func_body(ty, r'static\s+var\s+Type_Cache_Fetch\s*\(\s*var\s+self\s*,\s*var\s+cls\s*,\s*size_t\s+i\s*\)\s*\{')
+            guarded_def = re.search(r'#if\s+CELLO_CACHE\s*==\s*1\s*static\s+var\s+Type_Cache_Fetch.*?#define\s+Type_Cache_Entry\(i,\s*lit\)[^\n]*(?:\\\n[^\n]*)*\s*#else\s*#define\s+Type_Cache_Entry\(i,\s*lit\)[ \t]*\n\s*#endif', ty, re.S)
+            if m2 and shape == SHAPE_A2 and fetch and re.sub(r'\s+', '', fetch) == FETCH_A2 and guarded_def:
+                form = 'entry macro calling Type_Cache_Fetch (same read / scan-and-store / return), macro empty when CELLO_CACHE is 0'
+            elif m2:
+                m2 = None
+        if m2 and form:
+            wiring = [(int(a_), b_) for a_, b_ in re.findall(r'Type_Cache_Entry\((\d+),(\w+)\)', m2.group(1))]
+        if wiring is None:
+            # table form: the position of a class in a static table is its slot
+            mt = re.search(r'#if\s+CELLO_CACHE\s*==\s*1(.*?)#endif', ty, re.S)
+            tb = re.search(r'static\s+var\s*\*\s*const\s+Type_Cache_Classes\s*\[\s*\]\s*=\s*\{([^}]*)\}', mt.group(1)) if mt else None
+            cnt = re.search(r'TYPE_CACHE_CLASSES\s*=\s*sizeof\s*\(\s*Type_Cache_Classes\s*\)\s*/\s*sizeof\s*\(\s*Type_Cache_Classes\s*\[\s*0\s*\]\s*\)', ty)
+            if tb and cnt and nb == '{#ifCELLO_CACHE==1' + LOOP_B + '#endifreturnType_Scan(self,cls);}':
+                names_t = re.findall(r'&\s*(\w+)', tb.group(1))
+                if re.sub(r'[\s,]', '', re.sub(r'&\s*\w+', '', tb.group(1))) == '':
+                    wiring = list(enumerate(names_t))
+                    form = 'table of classes indexed by slot + loop (return a filled slot; else scan, store a non-NULL result, return)'
+    if wiring is not None and not all(b_ in classes for _, b_ in wiring):
+        wiring = None
     emit('cfg_cache_wiring', None if not wiring else
-         'Definition cfg_cache_wiring : list (nat * nat) := [%s].   (* Type_Cache_Entry(slot, Class) lines of Type_Instance as (slot, class number): %s *)'
-         % ('; '.join('(%d, %d)' % (a, classes.index(b)) for a, b in wiring), ' '.join('%d=%s' % (a, b) for a, b in wiring)))
+         'Definition cfg_cache_wiring : list (nat * nat) := [%s].   (* cache slots of Type_Instance as (slot, class number): %s; form: %s *)'
+         % ('; '.join('(%d, %d)' % (a, classes.index(b)) for a, b in wiring), ' '.join('%d=%s' % (a, b) for a, b in wiring), form))
 
     # ---------------------------------------------------------------- bound guards
     okb = bool(bounds) and all(nk is not None and gk is not None for _, nk, gk in bounds)
